@@ -195,8 +195,10 @@ class TGen:
             flt = ""
             if r.random() < 0.3:
                 # a filter on the block, sometimes with arguments that are names used nowhere else
-                flt = " | " + r.choice(["upper", "trim", f"replace({self.lit_str()}, {self.e_str(1)})",
-                                        f"default({r.choice(self.names)}|string)"])
+                choices = ["lower", "trim"] if self.neutral else [
+                    "upper", "trim", f"replace({self.lit_str()}, {self.e_str(1)})",
+                    f"default({r.choice(self.names)}|string)"]
+                flt = " | " + r.choice(choices)
             return "{% set " + r.choice(self.names) + flt + " %}" + self.body(d - 1, 2, inloop) + "{% endset %}"
         if k == "with":
             return ("{% with " + r.choice(self.names) + " = " + self.e_any(1) + " %}" + self.body(d - 1, None, inloop)
